@@ -794,6 +794,8 @@ def _run_probe_body(p, env, out):
         elif kind == "call0":
             _step(out, "call()", lambda: list(itertools.islice(obj(), 5)))
         elif kind == "run":
+            # an empty flow first (the loop body never runs: names bound only inside it), then the flow
+            _step(out, "run-empty", lambda: list(itertools.islice(obj.run(iter([])), 50)))
             _step(out, "run", lambda: list(itertools.islice(obj.run(iter(flow())), 50)))
         elif kind == "fill_compute":
             for i, v in enumerate(flow()):
